@@ -360,6 +360,9 @@ CO_ERR COSdoDownloadExpedited(CO_SDO *srv)
             srv->Obj = 0;
             result   = CO_ERR_NONE;
         }
+    } else if (size > 4) {
+        /* expedited transfer cannot carry this entry */
+        COSdoAbort(srv, CO_SDO_ERR_LEN);
     }
     return (result);
 }
